@@ -84,9 +84,9 @@ type Ctx struct {
 	Facts       []string
 	Extra       map[string]interface{}
 
-	journal *os.File
+	journal  *os.File
 	sigCount map[string]int
-	NoLean  bool
+	NoLean   bool
 }
 
 func NewCtx(prop, tier string, seed uint64) *Ctx {
@@ -578,22 +578,22 @@ func (c *Ctx) Finish(rule string, trusted []string, assumptions []string) int {
 	}
 	// evidence
 	cov := map[string]interface{}{
-		"obligations":          c.Obligations,
-		"discharged":           c.Discharged,
-		"checker_cmd":          "cd /verif/lean && lake build Csproto.Props." + c.Prop + " Csproto.Audit." + c.Prop + " && lake env lean Csproto/Audit/" + c.Prop + ".lean   (thorough: + lake env leanchecker Csproto.Props." + c.Prop + ")",
-		"trusted_base":         trusted,
-		"axioms_by_theorem":    c.Axioms,
-		"facts_regenerated":    c.Facts,
-		"evaluations":          c.evals,
-		"distinct_nontrivial":  c.distinctNT,
-		"rule":                 rule,
-		"samples":              c.samples,
-		"streams":              c.Streams,
-		"broken_obligations":   c.BrokenProof,
-		"disagreements":        len(c.Disagreements),
-		"known_findings_hit":   knownHit,
-		"violation_signatures": c.sigCount,
-		"notes":                c.Notes,
+		"obligations":                   c.Obligations,
+		"discharged":                    c.Discharged,
+		"checker_cmd":                   "cd /verif/lean && lake build Csproto.Props." + c.Prop + " Csproto.Audit." + c.Prop + " && lake env lean Csproto/Audit/" + c.Prop + ".lean   (thorough: + lake env leanchecker Csproto.Props." + c.Prop + ")",
+		"trusted_base":                  trusted,
+		"axioms_by_theorem":             c.Axioms,
+		"facts_regenerated":             c.Facts,
+		"evaluations":                   c.evals,
+		"distinct_nontrivial":           c.distinctNT,
+		"rule":                          rule,
+		"samples":                       c.samples,
+		"streams":                       c.Streams,
+		"broken_obligations":            c.BrokenProof,
+		"disagreements":                 len(c.Disagreements),
+		"known_findings_hit":            knownHit,
+		"violation_signatures":          c.sigCount,
+		"notes":                         c.Notes,
 		"traces_validated_against_impl": intExtra(c.Extra["model_cases_compared"]),
 	}
 	for k, v := range c.Extra {
